@@ -897,13 +897,19 @@ pub struct WithEpilogue<D> {
     /// sends again, DUP set, every QoS 1 / QoS 2 PUBLISH the client has not acknowledged, and
     /// the PUBREL of every exchange that waits for PUBCOMP
     pub redeliver: bool,
+    /// the connection the history ends on is still up: transport and broker start behaving on
+    /// it and the application goes on polling there (every other history), before the usual
+    /// "drop the handle, connect again"
+    pub stay_first: bool,
+    pub stay_from: Option<usize>,
+    stay_polls: usize,
     pre: std::collections::VecDeque<Step>,
     rt: std::collections::VecDeque<Step>,
 }
 
 impl<D> WithEpilogue<D> {
     pub fn new(inner: D, max_polls: usize) -> Self {
-        WithEpilogue { inner, stage: 0, polls: 0, max_polls, from_step: None, round_trip: false, tight_limits: false, force_fresh: false, fresh_small_window: false, redeliver: false, pre: Default::default(), rt: Default::default() }
+        WithEpilogue { inner, stage: 0, polls: 0, max_polls, from_step: None, round_trip: false, tight_limits: false, force_fresh: false, fresh_small_window: false, redeliver: false, stay_first: false, stay_from: None, stay_polls: 0, pre: Default::default(), rt: Default::default() }
     }
 }
 
@@ -945,10 +951,30 @@ impl<D: Driver> Driver for WithEpilogue<D> {
                 return Some(s);
             }
             self.stage = 1;
+            if self.stay_first && v.has_handle && v.is_connected && v.log.ops.len() % 2 == 0 {
+                self.stage = 10;
+                self.stay_from = Some(v.log.steps.len());
+                return Some(Step::Broker(BrokerAct::Behave));
+            }
             self.from_step = Some(v.log.steps.len());
         }
         loop {
             match self.stage {
+                10 => {
+                    // on the live connection: poll until idle, an error or a dozen calls
+                    let last = v.log.ops.last().filter(|_| self.stay_polls > 0);
+                    let go_on = match last.map(|o| &o.outcome) {
+                        None => true,
+                        Some(Outcome::Ok(_)) | Some(Outcome::Err(ErrRepr::Rejected(_))) => true,
+                        _ => false,
+                    };
+                    if go_on && self.stay_polls < 12 && v.has_handle && v.is_connected {
+                        self.stay_polls += 1;
+                        return Some(Step::Poll { max_wait: 0, cancel_at: None });
+                    }
+                    self.stage = 1;
+                    self.from_step = Some(v.log.steps.len());
+                }
                 1 => {
                     self.stage = 2;
                     if v.has_handle {
